@@ -69,9 +69,30 @@ def run_jobs(module, fn_name, jobs, procs=None, deadline=None):
     from .. import engine as _engine
     _engine.load(); driver.e3_build()
     ctx = multiprocessing.get_context('fork')
+    # wall-clock budget of one job list (VERIF_BUDGET_S; default 10 min quick / 40 min thorough): jobs not finished by then are
+    # abandoned and reported as inconclusive - a truncated exploration is never reported as complete
+    try:
+        budget = float(os.environ.get('VERIF_BUDGET_S', '') or (600 if tier() == 'quick' else 2400))
+    except ValueError:
+        budget = 2400.0
+    t_end = time.time() + budget
     with ctx.Pool(procs, maxtasksperchild=50) as pool:
-        for r in pool.imap_unordered(_run_job, args, chunksize=1):
-            out.append(r)
+        it = pool.imap_unordered(_run_job, args, chunksize=1)
+        done = 0
+        while done < len(args):
+            try:
+                if time.time() >= t_end:
+                    raise multiprocessing.TimeoutError()
+                r = it.next(timeout=max(1.0, min(30.0, t_end - time.time())))
+                out.append(r); done += 1
+            except multiprocessing.TimeoutError:
+                if time.time() >= t_end:
+                    out.append({'job': 'budget', 'violations': [], 'inconclusive': ['wall-clock budget of %ds reached: %d of %d jobs not finished (abandoned)' % (budget, len(args) - done, len(args))],
+                                'samples': [], 'obligations': 0, 'distinct': [], 'vacuity': {}, 'stats': {}})
+                    pool.terminate()
+                    break
+            except StopIteration:
+                break
     return out
 
 
